@@ -51,6 +51,9 @@ func runC07(r *core.Run) {
 		if c%5 == 1 {
 			kinds[3] = genDTFar
 		}
+		if c%6 == 3 {
+			kinds[1] = genTextBool
+		}
 		if c%5 == 2 {
 			kinds[4] = genBig // integers around 2^53, 10^18 and the int64 bounds, a few floats among them
 		}
